@@ -120,6 +120,11 @@ impl EntropyNormalizer {
         let entropy = self.calculate_entropy(frequencies);
         let mut normalized = vec![0u32; frequencies.len()];
         let mut remaining = target_total;
+        // Every present symbol must keep at least one slot: reserve one for each symbol still to come
+        let mut pending = frequencies.iter().filter(|&&f| f > 0).count() as u32;
+        if pending > target_total {
+            return Err(ZiporaError::invalid_data("More symbols than table slots"));
+        }
         
         // First pass: allocate based on entropy contribution
         if self.adaptive_scaling && entropy > self.entropy_threshold {
@@ -133,7 +138,8 @@ impl EntropyNormalizer {
                         ((freq as f64 * target_total as f64) / total_freq).round() as u32
                     };
                     
-                    normalized[i] = allocation.max(1).min(remaining);
+                    pending -= 1;
+                    normalized[i] = allocation.max(1).min(remaining - pending);
                     remaining = remaining.saturating_sub(normalized[i]);
                 }
             }
@@ -142,7 +148,8 @@ impl EntropyNormalizer {
             for (i, &freq) in frequencies.iter().enumerate() {
                 if freq > 0 {
                     let allocation = ((freq as f64 * target_total as f64) / total_freq).round() as u32;
-                    normalized[i] = allocation.max(1).min(remaining);
+                    pending -= 1;
+                    normalized[i] = allocation.max(1).min(remaining - pending);
                     remaining = remaining.saturating_sub(normalized[i]);
                 }
             }
@@ -485,11 +492,14 @@ impl FseTable {
             
         let mut normalized_freqs = vec![0u32; max_symbol as usize + 1];
         let mut remaining = table_size as u32;
+        // Every present symbol must keep at least one slot: reserve one for each symbol still to come
+        let mut pending = frequencies.iter().take(max_symbol as usize + 1).filter(|&&f| f > 0).count() as u32;
         
         for i in 0..=max_symbol as usize {
             if frequencies[i] > 0 {
                 let freq = ((frequencies[i] as u64 * table_size as u64) / total_freq) as u32;
-                normalized_freqs[i] = freq.max(1).min(remaining);
+                pending -= 1;
+                normalized_freqs[i] = freq.max(1).min(remaining - pending);
                 remaining = remaining.saturating_sub(normalized_freqs[i]);
             }
         }
